@@ -227,6 +227,24 @@ example : (match recover cfgOfSource (afterRounds cfgOfSource (created cfgOfSour
     | .error _ => none) =
     some ⟨[1001, 2001, 2002, 3001, 4001], [4000, 1000, 2000], [10000, 20000, 30000, 40000]⟩ := by decide
 
+/-! non-vacuity for a re-sunk key: the second compaction dies (process death, step 20) after its
+    first in-place leaf write — key 20000 is in the live leaf, the manifest is not written, the
+    transaction is still replayed from the log; the next incarnation compacts again:
+    `replace_property_entry` deletes the entry and inserts it again (two leaf writes), then loses
+    power inside the close -/
+def ex_resink : List Round :=
+  [⟨[.commit ⟨[1001], [1000], [10000]⟩, .compact, .commit ⟨[2001], [], [20000, 20001]⟩], .inCompact 20, .proc⟩,
+   ⟨[.compact], .inClose 1, .power [.keep] 0 false⟩, ⟨[], .idle, .proc⟩]
+
+example : FreshHist [] ex_resink := by decide
+example : CondHist cfgOfSource (created cfgOfSource) ex_resink := by decide
+example : (match recover cfgOfSource (afterRounds cfgOfSource (created cfgOfSource) (ex_resink.take 1)) with
+    | .ok (m, fs) => some (fs.pv.trees.map (fun t => t.leaves.map (·.entries)), m.runs.length)
+    | .error _ => none) = some ([[[some 10000, some 20000]]], 1) := by decide
+example : (match recover cfgOfSource (afterRounds cfgOfSource (created cfgOfSource) ex_resink) with
+    | .ok (m, fs) => some (content m fs.pv)
+    | .error _ => none) = some ⟨[1001, 2001], [1000], [10000, 20000, 20001]⟩ := by decide
+
 /-! non-vacuity of the creation theorem: the process dies three times inside the creation of the
     database (power loss at steps 10, 25 and 3 of the respective `open`, some unsynced writes kept),
     the fourth incarnation completes it and commits -/
